@@ -346,8 +346,947 @@ src_octet(void *drv, void *data)
     return 1;
 }
 
-#include "c13_lenprefix_enc.inc"
-#include "c13_lenprefix_dec.inc"
+/* ------------------------------------------------------------------------ */
+/* Encoders                                                                  */
+/* ------------------------------------------------------------------------ */
+
+enum ep { EP_MEM_ENC, EP_BUF_ENC, EP_BUF_ENC_N, EP_CHUNKS_USE,
+          EP_MEM_SINK, EP_BUF_SINK, EP_BUF_SINK_N, EP_CHUNKS_SINK };
+static const char *const epname[] = { "memory_encode", "buffer_encode", "buffer_encode_n", "chunks_use",
+                                      "memory_to_sink", "buffer_to_sink", "buffer_to_sink_n", "chunks_to_sink" };
+static const char *const skname[] = { "chunk", "octet", "-" };
+
+static const char *
+verdict_outcome(enum verdict v, int fam)
+{
+    /* fam 0 enc, 1 chunks, 2 encmax */
+    static const char *const t[3][3] = {
+        { "enc-accept", "enc-refuse", "enc-open" },
+        { "chunks-accept", "chunks-refuse", "chunks-open" },
+        { "encmax-accept", "encmax-refuse", "encmax-open" },
+    };
+    return t[fam][v];
+}
+
+/* sink encoders: prefix ++ exactly the designated octets, return = total;
+ * over-max: refused, nothing emitted.  Returns true when the call was (and had
+ * to be / was allowed to be) accepted. */
+static bool
+judge_sink(const char *ep, int k, uint64_t n, const unsigned char *pay,
+           const struct rec *r, ssize_t rc)
+{
+    unsigned char pfx[10];
+    const size_t pl = ref_prefix(k, n, pfx);
+    const enum verdict v = ref_verdict(k, n, true);
+    const size_t got = r->n + r->overflow;
+    mc_log("%s rc=%zd emitted=%zu", ep, rc, got);
+    mc_log_hex("emitted-head", r->buf, r->n < 24 ? r->n : 24);
+    if (v == V_REFUSE || (v == V_OPEN && rc < 0)) {
+        if (rc >= 0)
+            mc_fail(clause(ep, "refuses-overmax"), "length %llu beyond the %s maximum returned %zd",
+                    (unsigned long long)n, kname[k], rc);
+        else if (got != 0)
+            mc_fail(clause(ep, "refuses-overmax"), "refused (rc=%zd) after %zu octets were emitted", rc, got);
+        return false;
+    }
+    if (rc < 0) {
+        mc_fail(clause(ep, "accepts"), "length %llu (%s) refused rc=%zd after %zu octets emitted",
+                (unsigned long long)n, kname[k], rc, got);
+        return false;
+    }
+    if (got < pl || memcmp(r->buf, pfx, pl) != 0) {
+        mc_fail(clause(ep, "prefix"), "first octets are not the %s encoding of %llu (emitted %zu octets, rc=%zd)",
+                kname[k], (unsigned long long)n, got, rc);
+        return true;
+    }
+    if (got != pl + n || r->overflow || memcmp(r->buf + pl, pay, (size_t)n) != 0) {
+        mc_fail(clause(ep, "payload"), "after the prefix: %zu octets emitted, %llu designated, content %s",
+                got - pl, (unsigned long long)n,
+                (got - pl >= n && !r->overflow && memcmp(r->buf + pl, pay, (size_t)n) == 0) ? "starts right" : "differs");
+        return true;
+    }
+    if ((uint64_t)rc != pl + n)
+        mc_fail(clause(ep, "total"), "returned %zd, prefix+payload is %llu", rc, (unsigned long long)(pl + n));
+    return true;
+}
+
+/* prefix-object encoders: status >= 0, prefix view = the encoding, payload view
+ * designates exactly the octets (pointer and length; it is a view) */
+static bool
+judge_obj(const char *ep, int k, uint64_t n, const unsigned char *pay,
+          const unsigned char *prefix_storage, const ByteBuffer *prefix,
+          const ByteBuffer *payload, int rc)
+{
+    unsigned char pfx[10];
+    const size_t pl = ref_prefix(k, n, pfx);
+    const enum verdict v = ref_verdict(k, n, false);
+    mc_log("%s rc=%d", ep, rc);
+    if (v == V_REFUSE || (v == V_OPEN && rc < 0)) {
+        if (rc >= 0)
+            mc_fail(clause(ep, "refuses-overmax"), "length %llu beyond the %s maximum returned %d",
+                    (unsigned long long)n, kname[k], rc);
+        return false;
+    }
+    if (rc < 0) {
+        mc_fail(clause(ep, "accepts"), "length %llu (%s) refused rc=%d", (unsigned long long)n, kname[k], rc);
+        return false;
+    }
+    if (prefix->data != prefix_storage || prefix->used > VARINT_64BIT_MAX_OCTETS
+        || prefix->offset > prefix->used) {
+        mc_fail(clause(ep, "prefix"), "prefix view is not inside the object's prefix storage (used=%zu offset=%zu)",
+                prefix->used, prefix->offset);
+        return true;
+    }
+    mc_log_hex("prefix-view", prefix->data + prefix->offset, prefix->used - prefix->offset);
+    if (prefix->used - prefix->offset != pl || memcmp(prefix->data + prefix->offset, pfx, pl) != 0) {
+        mc_fail(clause(ep, "prefix"), "prefix view (%zu octets) is not the %s encoding of %llu",
+                prefix->used - prefix->offset, kname[k], (unsigned long long)n);
+        return true;
+    }
+    if (payload != NULL) {
+        const intptr_t delta = (intptr_t)((uintptr_t)payload->data + payload->offset - (uintptr_t)pay);
+        mc_log("payload-view offset-in-source=%td rest=%zu", (ptrdiff_t)delta, payload->used - payload->offset);
+        if (payload->offset > payload->used || payload->used - payload->offset != n || delta != 0)
+            mc_fail(clause(ep, "payload"), "payload view designates %zu octets starting %td octets from the designated start, expected %llu at 0",
+                    payload->used - payload->offset, (ptrdiff_t)delta, (unsigned long long)n);
+    }
+    return true;
+}
+
+static void
+check_advance(const char *ep, const ByteBuffer *b, const unsigned char *mem,
+              size_t size, size_t used, size_t off, size_t n)
+{
+    mc_log("buffer after: used=%zu offset=%zu", b->used, b->offset);
+    if (b->data != mem || b->size != size || b->used != used || b->offset != off + n)
+        mc_fail(clause(ep, "advances"), "buffer after the call: used=%zu offset=%zu, expected used=%zu offset=%zu (advanced by n=%zu)",
+                b->used, b->offset, used, off + n, n);
+}
+
+/* one call of a memory or buffer entry point on real memory */
+static void
+run_flat(int k, enum ep ep, int sk, size_t size, size_t used, size_t off, size_t n)
+{
+    unsigned char *mem = mc_exact(size);
+    for (size_t i = 0; i < size; ++i)
+        mem[i] = pat(i);
+    ByteBuffer b = { mem, size, used, off };
+    const unsigned char *pay = mem + off;
+    const bool isn = (ep == EP_BUF_ENC_N || ep == EP_BUF_SINK_N);
+    const bool ismem = (ep == EP_MEM_ENC || ep == EP_MEM_SINK);
+    const size_t want = (isn || ismem) ? n : used - off;
+    const char *name = epname[ep];
+    bool acc;
+    mc_trans(1);
+    if (ep == EP_MEM_ENC || ep == EP_BUF_ENC || ep == EP_BUF_ENC_N) {
+        LengthPrefixBuffer *lpb = mc_exact(sizeof *lpb);
+        memset(lpb, 0, sizeof *lpb);
+        int rc;
+        if (ep == EP_MEM_ENC)
+            rc = flenp_memory_encode(klib[k], lpb, mem + off, n);
+        else if (ep == EP_BUF_ENC)
+            rc = flenp_buffer_encode(klib[k], lpb, &b);
+        else
+            rc = flenp_buffer_encode_n(klib[k], lpb, &b, n);
+        acc = judge_obj(name, k, want, pay, lpb->prefix_, &lpb->prefix, &lpb->payload, rc);
+        free(lpb);
+    } else {
+        struct rec r;
+        rec_init(&r, want + 10u);
+        Sink s;
+        rec_sink(&s, &r, sk);
+        ssize_t rc;
+        if (ep == EP_MEM_SINK)
+            rc = flenp_memory_to_sink(klib[k], &s, mem + off, n);
+        else if (ep == EP_BUF_SINK)
+            rc = flenp_buffer_to_sink(klib[k], &s, &b);
+        else
+            rc = flenp_buffer_to_sink_n(klib[k], &s, &b, n);
+        acc = judge_sink(name, k, want, pay, &r, rc);
+        free(r.buf);
+    }
+    if (acc && isn)
+        check_advance(name, &b, mem, size, used, off, n);
+    free(mem);
+}
+
+static void
+enc_small(size_t S)
+{
+    for (int k = 0; k < NKINDS; ++k) {
+        for (size_t len = 1; len <= S; ++len)
+            for (int v = 0; v < 3; ++v) {
+                const enum ep ep = v ? EP_MEM_SINK : EP_MEM_ENC;
+                const int sk = v ? v - 1 : 2;
+                if (!mc_case("enc-small k=%s ep=%s sink=%s len=%zu", kname[k], epname[ep], skname[sk], len))
+                    continue;
+                run_flat(k, ep, sk, len, len, 0, len);
+                mc_end(true, verdict_outcome(ref_verdict(k, len, v != 0), 0));
+            }
+        for (size_t size = 1; size <= S; ++size)
+            for (size_t used = 1; used <= size; ++used)
+                for (size_t off = 0; off < used; ++off) {
+                    const size_t rest = used - off;
+                    for (size_t n = 0; n <= rest; ++n)
+                        for (int v = 0; v < 3; ++v) {
+                            /* n == 0 stands for the entry points without n */
+                            const enum ep ep = n ? (v ? EP_BUF_SINK_N : EP_BUF_ENC_N)
+                                                 : (v ? EP_BUF_SINK : EP_BUF_ENC);
+                            const int sk = v ? v - 1 : 2;
+                            if (!mc_case("enc-small k=%s ep=%s sink=%s size=%zu used=%zu off=%zu n=%zu",
+                                         kname[k], epname[ep], skname[sk], size, used, off, n))
+                                continue;
+                            run_flat(k, ep, sk, size, used, off, n);
+                            mc_end(off > 0 || size - used != rest || (n && n < rest),
+                                   verdict_outcome(ref_verdict(k, n ? n : rest, v != 0), 0));
+                        }
+                }
+    }
+}
+
+/* ---- chunk lists --------------------------------------------------------- */
+#define MAXCH 5
+struct chunkspec {
+    size_t nch, active;
+    size_t rest[MAXCH], lead[MAXCH], slack[MAXCH];
+};
+
+static size_t
+chunks_total(const struct chunkspec *c)
+{
+    size_t t = 0;
+    for (size_t i = c->active; i < c->nch; ++i)
+        t += c->rest[i];
+    return t;
+}
+
+static void
+run_chunks(int k, enum ep ep, int sk, const struct chunkspec *c)
+{
+    ByteBuffer *arr = mc_exact(c->nch * sizeof *arr);
+    ByteBuffer *copy = mc_exact(c->nch * sizeof *arr);
+    const size_t total = chunks_total(c);
+    unsigned char *expect = mc_exact(total);
+    size_t e = 0;
+    for (size_t i = 0; i < c->nch; ++i) {
+        const size_t size = c->lead[i] + c->rest[i] + c->slack[i];
+        unsigned char *m = mc_exact(size);
+        for (size_t j = 0; j < size; ++j)
+            m[j] = pat(40u * i + j);
+        arr[i] = (ByteBuffer){ m, size, c->lead[i] + c->rest[i], c->lead[i] };
+        if (i >= c->active) {
+            memcpy(expect + e, m + c->lead[i], c->rest[i]);
+            e += c->rest[i];
+        }
+    }
+    memcpy(copy, arr, c->nch * sizeof *arr);
+    mc_trans(1);
+    if (ep == EP_CHUNKS_USE) {
+        LengthPrefixChunks *lpc = mc_exact(sizeof *lpc);
+        memset(lpc, 0, sizeof *lpc);
+        lpc->payload = (ByteChunks){ c->nch, c->active, arr };
+        const int rc = flenp_chunks_use(klib[k], lpc);
+        const bool acc = judge_obj(epname[ep], k, total, NULL, lpc->prefix_, &lpc->prefix, NULL, rc);
+        if (acc && (lpc->payload.chunks != c->nch || lpc->payload.active != c->active
+                    || lpc->payload.chunk != arr || memcmp(copy, arr, c->nch * sizeof *arr) != 0))
+            mc_fail(clause(epname[ep], "payload"), "the chunk list of the object no longer designates the same octets");
+        free(lpc);
+    } else {
+        struct rec r;
+        rec_init(&r, total + 10u);
+        Sink s;
+        rec_sink(&s, &r, sk);
+        ByteChunks bc = { c->nch, c->active, arr };
+        const ssize_t rc = flenp_chunks_to_sink(klib[k], &s, &bc);
+        judge_sink(epname[ep], k, total, expect, &r, rc);
+        free(r.buf);
+    }
+    for (size_t i = 0; i < c->nch; ++i)
+        free(copy[i].data);
+    free(arr);
+    free(copy);
+    free(expect);
+}
+
+static void
+chunks_desc(const struct chunkspec *c, char *buf, size_t n)
+{
+    size_t l = 0;
+    buf[0] = 0;
+    for (size_t i = 0; i < c->nch && l + 40 < n; ++i)
+        l += (size_t)snprintf(buf + l, n - l, "%s(lead=%zu,rest=%zu,slack=%zu)", i ? "," : "",
+                              c->lead[i], c->rest[i], c->slack[i]);
+}
+
+static void
+chunks_cases(int k, const char *fam, const struct chunkspec *c, int outfam)
+{
+    bool interesting = c->nch > 1 || c->active > 0;
+    for (int v = 0; v < 3; ++v) {
+        const enum ep ep = v ? EP_CHUNKS_SINK : EP_CHUNKS_USE;
+        const int sk = v ? v - 1 : 2;
+        char d[260] = "";
+        if (mc_would_run())
+            chunks_desc(c, d, sizeof d);
+        if (!mc_case("%s k=%s ep=%s sink=%s active=%zu chunks=[%s]", fam, kname[k], epname[ep], skname[sk],
+                     c->active, d))
+            continue;
+        run_chunks(k, ep, sk, c);
+        mc_end(interesting, verdict_outcome(ref_verdict(k, chunks_total(c), v != 0), outfam));
+    }
+}
+
+static void
+enc_chunks(size_t C, size_t A)
+{
+    for (int k = 0; k < NKINDS; ++k)
+        for (size_t nch = 1; nch <= C; ++nch) {
+            size_t combos = 1;
+            for (size_t i = 0; i < nch; ++i)
+                combos *= 15u;
+            for (size_t code = 0; code < combos; ++code) {
+                struct chunkspec c;
+                memset(&c, 0, sizeof c);
+                c.nch = nch;
+                size_t x = code;
+                for (size_t i = 0; i < nch; ++i) {
+                    const size_t cc = 1u + x % 15u; /* 1..15: never lead=rest=slack=0 */
+                    x /= 15u;
+                    c.rest[i] = cc & 3u;
+                    c.lead[i] = (cc >> 2) & 1u;
+                    c.slack[i] = (cc >> 3) & 1u;
+                }
+                for (c.active = 0; c.active <= A && c.active < nch; ++c.active) {
+                    if (chunks_total(&c) == 0)
+                        continue; /* zero-length payloads are outside the statement */
+                    chunks_cases(k, "chunks", &c, 1);
+                }
+            }
+        }
+}
+
+/* ---- long payloads on real memory ---------------------------------------- */
+static size_t
+long_len(size_t i)
+{
+    return i < 1100 ? i + 1 : 65534u + (i - 1100);
+}
+#define NLONG 1103
+
+static void
+enc_long(void)
+{
+    for (int k = 0; k < NKINDS; ++k)
+        for (size_t li = 0; li < NLONG; ++li) {
+            const size_t len = long_len(li);
+            for (int e = 0; e < 6; ++e) {
+                static const enum ep eps[6] = { EP_MEM_ENC, EP_MEM_SINK, EP_BUF_ENC, EP_BUF_SINK,
+                                                EP_BUF_ENC_N, EP_BUF_SINK_N };
+                const enum ep ep = eps[e];
+                const bool sinky = (e & 1);
+                for (int lay = 0; lay < 2; ++lay) {
+                    if (e < 2 && lay)
+                        continue;
+                    const int sk = sinky ? ((len <= 1100 && lay) ? 1 : 0) : 2;
+                    const bool isn = e >= 4;
+                    const size_t off = lay ? 3 : 0;
+                    const size_t used = off + len + ((lay && isn) ? 2 : 0);
+                    const size_t size = used + (lay ? 5 : 0);
+                    if (!mc_case("enc-long k=%s ep=%s sink=%s size=%zu used=%zu off=%zu n=%zu",
+                                 kname[k], epname[ep], skname[sk], size, used, off, len))
+                        continue;
+                    run_flat(k, ep, sk, size, used, off, len);
+                    mc_end(true, verdict_outcome(ref_verdict(k, len, sinky), 0));
+                }
+            }
+            /* chunk lists: A = two halves; B = inactive, half, empty, half */
+            for (int lay = 0; lay < 2; ++lay) {
+                struct chunkspec c;
+                memset(&c, 0, sizeof c);
+                const size_t h2 = len / 2, h1 = len - h2;
+                if (lay == 0) {
+                    c.nch = h2 ? 2 : 1;
+                    c.rest[0] = h1;
+                    c.rest[1] = h2;
+                    c.lead[1] = 2;
+                } else {
+                    c.active = 1;
+                    c.rest[0] = 2;
+                    c.rest[1] = h1;
+                    c.lead[1] = 1;
+                    c.slack[1] = 3;
+                    c.lead[2] = 1;
+                    c.slack[2] = 1;
+                    c.rest[3] = h2;
+                    c.nch = h2 ? 4 : 3;
+                }
+                chunks_cases(k, "chunks-long", &c, 1);
+            }
+        }
+}
+
+/* ---- maxima: fake buffers over small real blocks, segment sink ----------- */
+struct xseg { int blk; uint64_t off, len; };
+
+static void
+judge_seg(const char *ep, int k, uint64_t n, const struct xseg *xs, int nxs,
+          const struct seg *g, ssize_t rc)
+{
+    unsigned char pfx[10];
+    const size_t pl = ref_prefix(k, n, pfx);
+    const enum verdict v = ref_verdict(k, n, true);
+    mc_log("%s rc=%zd sink calls=%ld prefix octets=%zu segments=%d", ep, rc, g->calls, g->npfx, g->ns);
+    mc_log_hex("prefix", g->pfx, g->npfx);
+    for (int i = 0; i < g->ns; ++i)
+        mc_log("segment %d: block %d offset %zu length %zu", i, g->s[i].blk, g->s[i].off, g->s[i].len);
+    if (v == V_REFUSE || (v == V_OPEN && rc < 0)) {
+        if (rc >= 0)
+            mc_fail(clause(ep, "refuses-overmax"), "length %llu beyond the %s maximum returned %zd",
+                    (unsigned long long)n, kname[k], rc);
+        else if (g->calls != 0)
+            mc_fail(clause(ep, "refuses-overmax"), "refused (rc=%zd) after %ld sink calls", rc, g->calls);
+        return;
+    }
+    if (rc < 0) {
+        mc_fail(clause(ep, "accepts"), "length %llu (%s) refused rc=%zd after %ld sink calls",
+                (unsigned long long)n, kname[k], rc, g->calls);
+        return;
+    }
+    if (g->bad_pfx || g->npfx != pl || memcmp(g->pfx, pfx, pl) != 0) {
+        mc_fail(clause(ep, "prefix"), "emitted prefix (%zu octets) is not the %s encoding of %llu",
+                g->npfx, kname[k], (unsigned long long)n);
+        return;
+    }
+    bool same = !g->bad_content && !g->too_many && g->ns == nxs;
+    for (int i = 0; same && i < nxs; ++i)
+        same = g->s[i].blk == xs[i].blk && g->s[i].off == xs[i].off && g->s[i].len == xs[i].len;
+    if (!same) {
+        mc_fail(clause(ep, "payload"), "emitted regions differ from the designated ones (first: block %d offset %zu length %zu; expected block %d offset %llu length %llu)",
+                g->ns ? g->s[0].blk : -1, g->ns ? g->s[0].off : 0, g->ns ? g->s[0].len : 0,
+                xs[0].blk, (unsigned long long)xs[0].off, (unsigned long long)xs[0].len);
+        return;
+    }
+    if ((uint64_t)rc != pl + n)
+        mc_fail(clause(ep, "total"), "returned %zd, prefix+payload is %llu", rc, (unsigned long long)(pl + n));
+}
+
+#define REALBLK 16u
+static void
+run_max(int k, enum ep ep, uint64_t n, int variant)
+{
+    unsigned char *blk[SEG_BLOCKS];
+    struct seg g;
+    memset(&g, 0, sizeof g);
+    g.nblk = SEG_BLOCKS;
+    for (int b = 0; b < SEG_BLOCKS; ++b) {
+        blk[b] = mc_exact(REALBLK);
+        for (size_t i = 0; i < REALBLK; ++i)
+            blk[b][i] = pat(40u * (size_t)b + i);
+        g.base[b] = blk[b];
+        g.real[b] = REALBLK;
+        g.patbase[b] = 40u * (size_t)b;
+    }
+    Sink s;
+    chunk_sink_init(&s, seg_chunk, &g);
+    const bool roomy = n <= SIZE_MAX - 32u;
+    const bool isn = (ep == EP_BUF_ENC_N || ep == EP_BUF_SINK_N);
+    const size_t off = roomy ? 2 : 0;
+    const size_t used = off + n + ((roomy && isn) ? 3 : 0);
+    const size_t size = used + (roomy ? 5 : 0);
+    ByteBuffer b = { blk[0], size, used, off };
+    struct xseg xs[2] = { { 0, off, n }, { 0, 0, 0 } };
+    const char *name = epname[ep];
+    mc_trans(1);
+    switch (ep) {
+    case EP_MEM_ENC: case EP_BUF_ENC: case EP_BUF_ENC_N: {
+        LengthPrefixBuffer *lpb = mc_exact(sizeof *lpb);
+        memset(lpb, 0, sizeof *lpb);
+        int rc;
+        if (ep == EP_MEM_ENC)
+            rc = flenp_memory_encode(klib[k], lpb, blk[0] + off, n);
+        else if (ep == EP_BUF_ENC)
+            rc = flenp_buffer_encode(klib[k], lpb, &b);
+        else
+            rc = flenp_buffer_encode_n(klib[k], lpb, &b, n);
+        if (judge_obj(name, k, n, blk[0] + off, lpb->prefix_, &lpb->prefix, &lpb->payload, rc) && isn)
+            check_advance(name, &b, blk[0], size, used, off, n);
+        free(lpb);
+        break;
+    }
+    case EP_MEM_SINK: case EP_BUF_SINK: case EP_BUF_SINK_N: {
+        ssize_t rc;
+        if (ep == EP_MEM_SINK)
+            rc = flenp_memory_to_sink(klib[k], &s, blk[0] + off, n);
+        else if (ep == EP_BUF_SINK)
+            rc = flenp_buffer_to_sink(klib[k], &s, &b);
+        else
+            rc = flenp_buffer_to_sink_n(klib[k], &s, &b, n);
+        judge_seg(name, k, n, xs, 1, &g, rc);
+        if (isn && rc >= 0 && ref_verdict(k, n, true) != V_REFUSE)
+            check_advance(name, &b, blk[0], size, used, off, n);
+        break;
+    }
+    case EP_CHUNKS_USE: case EP_CHUNKS_SINK: {
+        /* inactive(5) | n-2 octets | [empty] | 2 octets */
+        ByteBuffer arr[4];
+        size_t nch = 0;
+        arr[nch++] = (ByteBuffer){ blk[0], 8, 6, 1 };
+        arr[nch++] = (ByteBuffer){ blk[1], 1 + (n - 2), 1 + (n - 2), 1 };
+        if (variant)
+            arr[nch++] = (ByteBuffer){ blk[2], 2, 1, 1 };
+        arr[nch++] = (ByteBuffer){ blk[3], 4, 2, 0 };
+        xs[0] = (struct xseg){ 1, 1, n - 2 };
+        xs[1] = (struct xseg){ 3, 0, 2 };
+        if (ep == EP_CHUNKS_USE) {
+            LengthPrefixChunks *lpc = mc_exact(sizeof *lpc);
+            memset(lpc, 0, sizeof *lpc);
+            lpc->payload = (ByteChunks){ nch, 1, arr };
+            const int rc = flenp_chunks_use(klib[k], lpc);
+            judge_obj(name, k, n, NULL, lpc->prefix_, &lpc->prefix, NULL, rc);
+            free(lpc);
+        } else {
+            ByteChunks bc = { nch, 1, arr };
+            const ssize_t rc = flenp_chunks_to_sink(klib[k], &s, &bc);
+            judge_seg(name, k, n, xs, 2, &g, rc);
+        }
+        break;
+    }
+    }
+    for (int i = 0; i < SEG_BLOCKS; ++i)
+        free(blk[i]);
+}
+
+static void
+enc_max(void)
+{
+    static const uint64_t N[] = {
+        (1ull << 31) - 1, 1ull << 31, (1ull << 32) - 2, (1ull << 32) - 1, 1ull << 32, (1ull << 32) + 1,
+        SSZ_MAX - 10, SSZ_MAX - 1, SSZ_MAX, SSZ_MAX + 1, UINT64_MAX,
+    };
+    for (int k = 0; k < NKINDS; ++k)
+        for (size_t i = 0; i < sizeof N / sizeof *N; ++i)
+            for (int ep = 0; ep < 8; ++ep) {
+                const bool ch = (ep == EP_CHUNKS_USE || ep == EP_CHUNKS_SINK);
+                for (int variant = 0; variant < (ch ? 2 : 1); ++variant) {
+                    if (!mc_case("enc-max k=%s ep=%s n=%llu%s", kname[k], epname[ep],
+                                 (unsigned long long)N[i], ch ? (variant ? " with-empty-chunk" : " two-chunks") : ""))
+                        continue;
+                    run_max(k, (enum ep)ep, N[i], variant);
+                    mc_end(true, verdict_outcome(ref_verdict(k, N[i], ep >= EP_MEM_SINK), 2));
+                }
+            }
+}
+/* ------------------------------------------------------------------------ */
+/* Decoders                                                                  */
+/* ------------------------------------------------------------------------ */
+
+enum dec { D_MEM, D_BUF, D_SINK };
+static const char *const decname[] = { "memory_from_source", "buffer_from_source", "decode_source_to_sink" };
+enum srckind { SRC_CHUNK, SRC_OCTET };
+
+static void
+make_source(Source *s, struct src *drv, enum srckind sk)
+{
+    if (sk == SRC_OCTET)
+        octet_source_init(s, src_octet, drv);
+    else
+        chunk_source_init(s, src_chunk, drv);
+}
+
+/* frame f of a stream: prefix ++ pat(57 f + i) */
+static size_t
+put_frame(unsigned char *out, int k, size_t len, size_t f)
+{
+    const size_t pl = ref_prefix(k, len, out);
+    for (size_t i = 0; i < len; ++i)
+        out[pl + i] = pat(57u * f + i);
+    return pl + len;
+}
+
+static bool
+payload_is(const unsigned char *p, size_t len, size_t f)
+{
+    for (size_t i = 0; i < len; ++i)
+        if (p[i] != pat(57u * f + i))
+            return false;
+    return true;
+}
+
+/* one frame, one destination of capacity cap (buffer: used/offset before the
+ * call are bused/boff and size = bused + cap) */
+static void
+run_dec(int k, enum dec d, size_t len, size_t cap, size_t bused, size_t boff, enum srckind sk)
+{
+    unsigned char *stream = mc_exact(len + 10u);
+    const size_t sl = put_frame(stream, k, len, 0);
+    struct src drv;
+    src_init(&drv, stream, sl, NULL);
+    Source src;
+    make_source(&src, &drv, sk);
+    const char *name = decname[d];
+    const bool room = len <= cap;
+    mc_trans(1);
+    if (d == D_MEM) {
+        unsigned char *dst = mc_exact(cap);
+        memset(dst, 0xee, cap);
+        const ssize_t rc = flenp_memory_from_source(klib[k], &src, dst, cap);
+        mc_log("%s rc=%zd source consumed=%zu of %zu", name, rc, drv.pos, sl);
+        mc_log_hex("destination-head", dst, cap < 24 ? cap : 24);
+        if (room) {
+            if (rc < 0 || (size_t)rc != len || !payload_is(dst, len, 0))
+                mc_fail(clause(name, "returns-payload"), "room for %zu, frame of %zu: rc=%zd, destination %s the payload",
+                        cap, len, rc, (rc >= 0 && payload_is(dst, len, 0)) ? "holds" : "does not hold");
+        } else if (rc != -ENOMEM) {
+            mc_fail(clause(name, "enomem"), "room for %zu, frame of %zu: rc=%zd, expected out-of-memory (%d)",
+                    cap, len, rc, -ENOMEM);
+        }
+        free(dst);
+    } else if (d == D_BUF) {
+        const size_t size = bused + cap;
+        unsigned char *mem = mc_exact(size);
+        for (size_t i = 0; i < size; ++i)
+            mem[i] = old(i);
+        ByteBuffer b = { mem, size, bused, boff };
+        const ssize_t rc = flenp_buffer_from_source(klib[k], &src, &b);
+        mc_log("%s rc=%zd buffer after: used=%zu offset=%zu", name, rc, b.used, b.offset);
+        mc_log_hex("buffer-head", mem, size < 24 ? size : 24);
+        if (room) {
+            bool kept = true;
+            for (size_t i = 0; i < bused; ++i)
+                kept = kept && mem[i] == old(i);
+            if (rc < 0 || (size_t)rc != len)
+                mc_fail(clause(name, "returns-payload"), "room for %zu, frame of %zu: rc=%zd", cap, len, rc);
+            else if (b.data != mem || b.size != size || b.used != bused + len || b.offset != boff || !kept
+                     || !payload_is(mem + bused, len, 0))
+                mc_fail(clause(name, "appends"), "buffer (size=%zu used=%zu offset=%zu) after a frame of %zu: used=%zu offset=%zu, old content %s, payload %s the old fill mark",
+                        size, bused, boff, len, b.used, b.offset, kept ? "kept" : "overwritten",
+                        payload_is(mem + bused, len, 0) ? "at" : "not at");
+        } else if (rc != -ENOMEM) {
+            mc_fail(clause(name, "enomem"), "room for %zu, frame of %zu: rc=%zd, expected out-of-memory (%d)",
+                    cap, len, rc, -ENOMEM);
+        }
+        free(mem);
+    } else {
+        struct rec r;
+        cap_init(&r, cap);
+        Sink s;
+        chunk_sink_init(&s, cap_chunk, &r);
+        const ssize_t rc = flenp_decode_source_to_sink(klib[k], &src, &s);
+        mc_log("%s rc=%zd sink holds %zu of capacity %zu, source consumed=%zu of %zu", name, rc, r.n, cap, drv.pos, sl);
+        if (room) {
+            if (rc < 0 || r.n != len || !payload_is(r.buf, len, 0))
+                mc_fail(clause(name, "returns-payload"), "sink with room for %zu, frame of %zu: rc=%zd, sink holds %zu octets",
+                        cap, len, rc, r.n);
+        } else if (rc != -ENOMEM) {
+            mc_fail(clause(name, "enomem"), "sink with room for %zu, frame of %zu: rc=%zd, expected out-of-memory (%d)",
+                    cap, len, rc, -ENOMEM);
+        }
+        free(r.buf);
+    }
+    if (drv.over_budget)
+        mc_fail("C13/hang", "%s: source call budget of %ld exceeded", name, drv.budget);
+    free(stream);
+}
+
+static void
+dec_small(size_t S)
+{
+    for (int k = 0; k < NKINDS; ++k) {
+        for (int d = 0; d < 3; d += 2)
+            for (size_t len = 1; len <= S; ++len)
+                for (size_t cap = len - 1; cap <= len + 1; ++cap) {
+                    if (!mc_case("dec-small k=%s dec=%s len=%zu cap=%zu", kname[k], decname[d], len, cap))
+                        continue;
+                    run_dec(k, (enum dec)d, len, cap, 0, 0, SRC_CHUNK);
+                    mc_end(true, len <= cap ? "dec-accept" : "dec-enomem");
+                }
+        for (size_t size = 1; size <= S; ++size)
+            for (size_t used = 0; used <= size; ++used)
+                for (size_t off = 0; off <= used; ++off)
+                    for (size_t len = 1; len <= size - used + 1; ++len) {
+                        if (!mc_case("dec-small k=%s dec=%s size=%zu used=%zu off=%zu len=%zu",
+                                     kname[k], decname[D_BUF], size, used, off, len))
+                            continue;
+                        run_dec(k, D_BUF, len, size - used, used, off, SRC_CHUNK);
+                        mc_end(true, len <= size - used ? "dec-accept" : "dec-enomem");
+                    }
+    }
+}
+
+static void
+dec_long(void)
+{
+    for (int k = 0; k < NKINDS; ++k)
+        for (size_t li = 0; li < NLONG; ++li) {
+            const size_t len = long_len(li);
+            if (len > ref_max(k))
+                continue; /* no prefix of this kind says so */
+            for (int d = 0; d < 3; ++d)
+                for (size_t cap = len - 1; cap <= len + 1; ++cap) {
+                    if (!mc_case("dec-long k=%s dec=%s len=%zu cap=%zu%s", kname[k], decname[d], len, cap,
+                                 d == D_BUF ? " used=3 off=1" : ""))
+                        continue;
+                    run_dec(k, (enum dec)d, len, cap, d == D_BUF ? 3 : 0, d == D_BUF ? 1 : 0, SRC_CHUNK);
+                    mc_end(true, len <= cap ? "dec-accept" : "dec-enomem");
+                }
+        }
+}
+
+/* prefix says L (up to 2^64-1); claimed capacity is below L; only 16 real
+ * octets exist behind the destination: out-of-memory has to be reported
+ * without a write (ASan watches the block) */
+static void
+dec_max(void)
+{
+    static const uint64_t LS[] = { (1ull << 32) - 2, (1ull << 32) - 1, 1ull << 32, SSZ_MAX, SSZ_MAX + 1, UINT64_MAX };
+    for (int k = 0; k < NKINDS; ++k)
+        for (size_t i = 0; i < sizeof LS / sizeof *LS; ++i) {
+            const uint64_t L = LS[i];
+            if (L > ref_max(k) && k != K_VAR)
+                continue;
+            for (int d = 0; d < 2; ++d)
+                for (int c = 0; c < 2; ++c) {
+                    const uint64_t cap = c ? 7 : L - 1;
+                    if (!mc_case("dec-max k=%s dec=%s len=%llu claimed-cap=%llu", kname[k], decname[d],
+                                 (unsigned long long)L, (unsigned long long)cap))
+                        continue;
+                    unsigned char *stream = mc_exact(14);
+                    const size_t pl = ref_prefix(k, L, stream);
+                    for (size_t j = 0; j < 4; ++j)
+                        stream[pl + j] = pat(j);
+                    struct src drv;
+                    src_init(&drv, stream, pl + 4, NULL);
+                    Source src;
+                    make_source(&src, &drv, SRC_CHUNK);
+                    unsigned char *dst = mc_exact(16);
+                    memset(dst, 0xee, 16);
+                    ssize_t rc;
+                    mc_trans(1);
+                    if (d == D_MEM) {
+                        rc = flenp_memory_from_source(klib[k], &src, dst, cap);
+                    } else {
+                        const size_t used = (cap <= SIZE_MAX - 3u) ? 3 : 0;
+                        ByteBuffer b = { dst, used + cap, used, used ? 1 : 0 };
+                        rc = flenp_buffer_from_source(klib[k], &src, &b);
+                    }
+                    mc_log("%s rc=%zd source consumed=%zu", decname[d], rc, drv.pos);
+                    if (rc != -ENOMEM)
+                        mc_fail(clause(decname[d], "enomem"), "frame of %llu against room for %llu: rc=%zd, expected out-of-memory (%d)",
+                                (unsigned long long)L, (unsigned long long)cap, rc, -ENOMEM);
+                    free(dst);
+                    free(stream);
+                    mc_end(true, "decmax-enomem");
+                }
+        }
+}
+
+/* ---- consecutive frames under fragmentation ------------------------------ */
+#define MAXFR 3
+struct shape {
+    int k;
+    size_t nf, len[MAXFR], total;
+};
+
+static void
+run_stream(const struct shape *sh, enum dec d, const unsigned char *cut, enum srckind sk, const char *what)
+{
+    unsigned char *stream = mc_exact(sh->total);
+    size_t sl = 0, sum = 0;
+    for (size_t f = 0; f < sh->nf; ++f) {
+        sl += put_frame(stream + sl, sh->k, sh->len[f], f);
+        sum += sh->len[f];
+    }
+    struct src drv;
+    src_init(&drv, stream, sl, cut);
+    Source src;
+    make_source(&src, &drv, sk);
+    const char *name = decname[d];
+    /* accumulating destinations for the buffer and the sink decoder */
+    const size_t bused = 2, boff = 1;
+    unsigned char *mem = mc_exact(bused + sum);
+    for (size_t i = 0; i < bused + sum; ++i)
+        mem[i] = old(i);
+    ByteBuffer b = { mem, bused + sum, bused, boff };
+    struct rec r;
+    cap_init(&r, sum);
+    Sink s;
+    chunk_sink_init(&s, cap_chunk, &r);
+    size_t cum = 0;
+    for (size_t f = 0; f < sh->nf; ++f) {
+        const size_t len = sh->len[f];
+        bool good;
+        ssize_t rc;
+        mc_trans(1);
+        if (d == D_MEM) {
+            unsigned char *dst = mc_exact(len);
+            memset(dst, 0xee, len);
+            rc = flenp_memory_from_source(klib[sh->k], &src, dst, len);
+            mc_log_hex("destination", dst, len);
+            good = rc >= 0 && (size_t)rc == len && payload_is(dst, len, f);
+            free(dst);
+        } else if (d == D_BUF) {
+            rc = flenp_buffer_from_source(klib[sh->k], &src, &b);
+            mc_log("buffer after: used=%zu offset=%zu", b.used, b.offset);
+            mc_log_hex("buffer", mem, bused + sum);
+            good = rc >= 0 && (size_t)rc == len && b.used == bused + cum + len && b.offset == boff
+                && b.data == mem && mem[0] == old(0) && mem[1] == old(1)
+                && payload_is(mem + bused + cum, len, f);
+        } else {
+            rc = flenp_decode_source_to_sink(klib[sh->k], &src, &s);
+            mc_log_hex("sink", r.buf, r.n);
+            good = rc >= 0 && r.n == cum + len && payload_is(r.buf + cum, len, f);
+        }
+        mc_log("frame %zu (%zu octets): rc=%zd source consumed=%zu of %zu after %ld calls", f, len, rc, drv.pos, sl, drv.calls);
+        if (drv.over_budget) {
+            mc_fail("C13/hang", "%s: source call budget of %ld exceeded in frame %zu", name, drv.budget, f);
+            break;
+        }
+        if (!good) {
+            mc_fail(clause(name, what), "frame %zu of %zu (payload %zu octets) was not returned intact and in order: rc=%zd, source consumed %zu of %zu octets",
+                    f, sh->nf, len, rc, drv.pos, sl);
+            break;
+        }
+        cum += len;
+    }
+    free(r.buf);
+    free(mem);
+    free(stream);
+}
+
+static void
+shape_desc(const struct shape *sh, char *buf, size_t n)
+{
+    size_t l = 0;
+    buf[0] = 0;
+    for (size_t f = 0; f < sh->nf; ++f)
+        l += (size_t)snprintf(buf + l, n - l, "%s%zu", f ? "," : "", sh->len[f]);
+}
+
+static void
+cuts_desc(const unsigned char *cut, size_t L, char *buf, size_t n)
+{
+    /* fragment sizes, e.g. 1+3+2 */
+    size_t l = 0, run = 0;
+    buf[0] = 0;
+    for (size_t i = 0; i < L && l + 8 < n; ++i) {
+        run++;
+        if (cut[i] || i + 1 == L) {
+            l += (size_t)snprintf(buf + l, n - l, "%s%zu", l ? "+" : "", run);
+            run = 0;
+        }
+    }
+}
+
+typedef void (*shape_fn)(const struct shape *);
+
+static void
+for_shapes(size_t Lmax, shape_fn fn)
+{
+    for (int k = 0; k < NKINDS; ++k)
+        for (size_t nf = 1; nf <= MAXFR; ++nf) {
+            unsigned char tmp[10];
+            const size_t p = ref_prefix(k, 1, tmp); /* lengths here are < 128 */
+            struct shape sh;
+            memset(&sh, 0, sizeof sh);
+            sh.k = k;
+            sh.nf = nf;
+            for (size_t f = 0; f < nf; ++f)
+                sh.len[f] = 1;
+            for (;;) {
+                sh.total = 0;
+                for (size_t f = 0; f < nf; ++f)
+                    sh.total += p + sh.len[f];
+                if (sh.total <= Lmax)
+                    fn(&sh);
+                /* odometer over lengths 1..Lmax */
+                size_t f = 0;
+                while (f < nf && ++sh.len[f] > Lmax)
+                    sh.len[f++] = 1;
+                if (f == nf)
+                    break;
+            }
+        }
+}
+
+static void
+shape_all_fragmentations(const struct shape *sh)
+{
+    const size_t L = sh->total;
+    for (int d = 0; d < 3; ++d)
+        for (uint32_t mask = 0; mask < (1u << (L - 1)); ++mask) {
+            if (!mc_would_run()) {
+                mc_skip_case();
+                continue;
+            }
+            unsigned char cut[32] = { 0 };
+            for (size_t i = 0; i + 1 < L; ++i)
+                cut[i] = (mask >> i) & 1u;
+            char ls[40], cs[80];
+            shape_desc(sh, ls, sizeof ls);
+            cuts_desc(cut, L, cs, sizeof cs);
+            if (!mc_case("stream k=%s frames=[%s] dec=%s fragments=%s", kname[sh->k], ls, decname[d], cs))
+                continue;
+            run_stream(sh, (enum dec)d, cut, SRC_CHUNK, "stream-in-order");
+            mc_end(mask != 0 || sh->nf > 1, "stream-inorder");
+        }
+}
+
+static void
+streams(size_t Lmax)
+{
+    for_shapes(Lmax, shape_all_fragmentations);
+}
+
+static void
+shape_octet(const struct shape *sh)
+{
+    for (int d = 0; d < 3; ++d) {
+        char ls[40];
+        shape_desc(sh, ls, sizeof ls);
+        if (!mc_case("stream-octet-source k=%s frames=[%s] dec=%s", kname[sh->k], ls, decname[d]))
+            continue;
+        run_stream(sh, (enum dec)d, NULL, SRC_OCTET, "octet-source-in-order");
+        mc_end(true, "stream-octet");
+    }
+}
+
+static void
+streams_octet(size_t Lmax)
+{
+    for_shapes(Lmax, shape_octet);
+}
+
+/* a frame whose varint prefix has two octets (and the 16-bit kinds at the same
+ * length): every fragmentation with at most two cuts */
+static void
+stream_two_cuts(void)
+{
+    static const int ks[3] = { K_VAR, K_LE16, K_BE32 };
+    for (int ki = 0; ki < 3; ++ki) {
+        struct shape sh;
+        memset(&sh, 0, sizeof sh);
+        unsigned char tmp[10];
+        sh.k = ks[ki];
+        sh.nf = 1;
+        sh.len[0] = 128;
+        sh.total = ref_prefix(sh.k, 128, tmp) + 128;
+        const size_t L = sh.total;
+        for (int d = 0; d < 3; ++d)
+            for (size_t i = 0; i < L; ++i)      /* i == L-1: no first cut */
+                for (size_t j = i; j < L - 1 || j == i; ++j) { /* j == i: no second cut */
+                    if (!mc_case("stream2 k=%s frames=[128] dec=%s cuts-after=%zd,%zd", kname[sh.k], decname[d],
+                                 i == L - 1 ? (ssize_t)-1 : (ssize_t)i, j == i ? (ssize_t)-1 : (ssize_t)j))
+                        continue;
+                    unsigned char cut[140] = { 0 };
+                    if (i != L - 1)
+                        cut[i] = 1;
+                    if (j != i)
+                        cut[j] = 1;
+                    run_stream(&sh, (enum dec)d, cut, SRC_CHUNK, "stream-in-order");
+                    mc_end(i != L - 1, "stream2-inorder");
+                }
+    }
+}
 
 int
 main(int argc, char **argv)
@@ -362,16 +1301,16 @@ main(int argc, char **argv)
     dec_small(T ? 8 : 6);
     dec_long();
     dec_max();
-    streams(T ? 13 : 10);
+    streams(T ? 16 : 12);
     stream_two_cuts();
-    streams_octet(T ? 13 : 10);
-    char bound[400];
+    streams_octet(T ? 16 : 12);
+    char bound[800];
     snprintf(bound, sizeof bound,
              "6 kinds; encoders: buffer states size<=%d x n<=rest, chunk lists <=%d chunks (rest 0..3, lead/slack 0..1, active<=%d), "
              "lengths 1..1100 + 65534..65536, maxima 2^31,2^32,SSIZE_MAX +-1 via fake buffers; decoders: buffer states size<=%d, "
              "lengths 1..1100 x cap len-1..len+1, maxima vs cap len-1; streams of 1..3 frames with <=%d octets under all 2^(L-1) "
              "fragmentations, 130-octet stream under all <=2-cut fragmentations, octet source",
-             T ? 8 : 6, T ? 4 : 3, T ? 2 : 1, T ? 8 : 6, T ? 13 : 10);
+             T ? 8 : 6, T ? 4 : 3, T ? 2 : 1, T ? 8 : 6, T ? 16 : 12);
     mc_finish(true, bound);
     return 0;
 }
